@@ -42,6 +42,9 @@ claimed = {
  "C14": dict(sec="7 C14",
    text="Proof, for every request and manager state, that each REST v1 handler and each web-UI mailbox handler makes exactly the one manager call it is named after, with the canonical mailbox name and the id from the URL, changes nothing else (ghost call log of message.Manager), answers 404 exactly when the manager says ErrNotExist, copies every metadata field of the list answer index by index, and cannot dereference nil; that StoreManager.GetMessage / SourceReader refine the Manager contract 'a result or an error, never neither' given the Store interface contract; and that each Go-client operation sends the method its route is registered for and a JSON body where the handler decodes one.",
    note="assumed: net/http, encoding/json, io.Copy, mux.Vars deliver the decoded path segments; the Store interface contract (GetMessage: message xor error) is ASSUMED here until both back-ends are verified against it (C07) - the memory store's GetMessage of a missing id returns (nil,nil), which is where the web-UI nil dereference comes from; URL escaping / routing of names with URL-significant characters is not decided; client.ListMailboxWithContext is not under contract (a JSON null element would be dereferenced)"),
+ "C15": dict(sec="7 C15, 10",
+   text="Proof, for every hub state and every set of listeners, of the hub's operations one at a time (they are closures run in FIFO order by the hub goroutine): a stored / deleted broadcast hands the event to every registered listener exactly once, whatever the history length; a listener whose attempt fails — by returning an error or by panicking (send on its closed channel) — is dropped and nobody else is: the other listeners still get the event, keep their registration and their earlier events; AddListener registers, RemoveListener removes exactly that listener.  For the real WebSocket listeners (v1, v2): Receive and Delete contain no channel operation that can wait (nonblocking obligations), their only tolerated panic is the send on a closed channel, which the hub is proved to contain (safe.panic@unrecovered at the call sites); Close closes the channel and deregisters exactly once whatever is still queued.  The order in which one listener sees events is the order of hub operations because each operation completes its relay before the next starts (sequential semantics of the actor loop, assumed: D3).  NOT decided: the content and order of the history playback (container/ring semantics; AddListener's playback closure is not under contract), timing, the WebSocket writer goroutines.",
+   note="assumed: Listener interface contract (one attempt per call, ghost log), channel model D3 (sends have no effect, receive arbitrary), sync.Once, container/ring Next/Do; runOp / Start / FIFO order of the op channel are not under contract; history playback not decided"),
  "C16": dict(sec="7 C16",
    text="Proof of emission counts and identities: Deliver emits exactly one stored event per successful AddMessage carrying the returned id and the mailbox; the memory store emits exactly one deleted event for an explicit remove (with that id and mailbox), one per message for purge, one per cap-evicted message; the file store emits one per removed message and one per purged message.  The ordering half of the property (a listener never runs for the next event before the previous finished) is about goroutine scheduling of AsyncEventBroker.Emit and is not decided.",
    note="assumed: AsyncEventBroker.Emit is an assumed contract (the engine logs the call; its loop starts one goroutine per listener), retention's deletes go through RemoveMessage (C12), size-limit eviction in the enforcer goroutine is not under contract"),
@@ -53,7 +56,6 @@ claimed = {
 pending = {
  "C02": "data-path contracts (stores, POP3, HTTP handlers) not built yet; see DESIGN.md section 7",
  "C09": "monitor-invariant obligations not built yet; see DESIGN.md section 7",
- "C15": "hub contracts not built yet; see DESIGN.md section 7",
  "C18": "decided by third-party HTML/CSS parsers (bluemonday, x/net/html, gorilla/css): no contract on inbucket's glue can express 'no active content' without assuming the property (DESIGN.md section 7, C18)",
  "C19": "liveness / schedule property (graceful drain, stop accepting, 'after and only after'): outside what function contracts can decide (DESIGN.md section 7, C19)",
 }
